@@ -83,6 +83,7 @@ def setCfg (d : DSt) (kv : String) : Option DSt :=
     | "db.headPerRequest" => if v == "perRequest" then some d else none
     | "manifest.rewriteOrder" => if v == "current,remove" then some d else none
     | "wal.recordBound" => if v == "none" then some d else none
+    | "lsm.flushWorkers" => if v == "1" then some d else none   -- the model installs flushes in segment order
     | "oracle.seedOp" =>
       if v == "ge" then some { d with cfg := { d.cfg with seedGe := true } }
       else if v == "gt" then some { d with cfg := { d.cfg with seedGe := false } }
